@@ -72,6 +72,7 @@ type Issue struct {
 	SRealm     string
 	SessionKey rk.EncryptionKey
 	TicketEnc  []byte // ciphertext of the ticket's enc-part (identifies the ticket bit for bit)
+	TicketRaw  []byte // the encoded Ticket
 	TicketKey  rk.EncryptionKey
 	AuthTime   time.Time
 	Start      time.Time
@@ -656,7 +657,7 @@ func (k *KDC) issue(a issueArgs) []byte {
 	}
 	tkt := rk.Ticket{Realm: k.Realm, SName: a.sname, Enc: tenc}
 	iss := Issue{Serial: a.serial, Kind: a.kind, Realm: k.Realm, Client: a.cname.String(), CRealm: a.crealm, SName: a.sname.String(), SRealm: k.Realm,
-		SessionKey: a.sess, TicketEnc: tenc.Cipher, TicketKey: a.tkey.Key, AuthTime: a.authtime, Start: a.start, End: a.end, RenewTill: a.renewTill,
+		SessionKey: a.sess, TicketEnc: tenc.Cipher, TicketRaw: tkt.EncBytes(), TicketKey: a.tkey.Key, AuthTime: a.authtime, Start: a.start, End: a.end, RenewTill: a.renewTill,
 		Flags: a.flags, Nonce: a.req.Nonce, Task: k.TaskID(), At: k.Now().UTC(), ReqEtypes: a.req.Etypes, Addresses: a.caddr}
 	a.l.mu.Lock()
 	a.l.issues = append(a.l.issues, iss)
@@ -988,4 +989,37 @@ func (k *KDC) handleTGS(req *rk.KDCReq, rec *ReqRecord, l *taskLog, pt []Perturb
 	base.kind, base.serial = "tgs", fmt.Sprintf("%s/tgs/t%d/%d", k.Realm, k.TaskID(), l.n)
 	base.sname, base.tkey = sname, tkey
 	return k.issue(base), 0
+}
+
+// DirectAS issues a ticket the way an AS exchange by some other program (kinit) would have: the
+// issue is logged like any other, no request record is kept, pre-authentication is not asked for.
+// It is meant for building the world (a credential cache to start from), before tasks run.
+func (k *KDC) DirectAS(client, sname string, etypes []int32, options uint32, life, renew time.Duration, addrs []rk.HostAddress) (*Issue, error) {
+	cp := k.DB[client]
+	if cp == nil {
+		return nil, fmt.Errorf("no principal %s", client)
+	}
+	was := cp.NoPreauth
+	cp.NoPreauth = true
+	defer func() { cp.NoPreauth = was }()
+	now := k.now()
+	cn, sn := rk.ParseName(client), rk.ParseName(sname)
+	sn.Type = 2
+	req := &rk.KDCReq{MsgType: rk.MsgASReq, Options: options, CName: &cn, Realm: k.Realm, SName: &sn, Till: now.Add(life), Nonce: 424242, Etypes: etypes, Addresses: addrs}
+	if renew > 0 {
+		rt := now.Add(renew)
+		req.RTime = &rt
+		req.Options |= rk.Bit(rk.FlagRenewable)
+	}
+	l := k.log()
+	before := len(l.issues)
+	rec := &ReqRecord{At: k.Now().UTC(), Task: k.TaskID(), Realm: k.Realm, Req: req}
+	if _, code := k.handleAS(req, rec, l, nil); code != 0 {
+		return nil, fmt.Errorf("KDC refuses: error %d", code)
+	}
+	if len(l.issues) != before+1 {
+		return nil, fmt.Errorf("nothing issued")
+	}
+	is := l.issues[len(l.issues)-1]
+	return &is, nil
 }
